@@ -6,3 +6,23 @@ package templater
 
 //@ func ReplaceGlobs
 //@   sweep                                                          [C16]
+
+// Template expansion reads the variables in the cache and returns new values (trusted frames: text/template).
+//@ func Replace
+//@   trusted
+//@   modifies github.com/go-task/task/v3/internal/templater.*
+//@ func ReplaceWithExtra
+//@   trusted
+//@   modifies github.com/go-task/task/v3/internal/templater.*
+//@ func ReplaceVar
+//@   trusted
+//@   modifies github.com/go-task/task/v3/internal/templater.*
+//@ func ReplaceVarWithExtra
+//@   trusted
+//@   modifies github.com/go-task/task/v3/internal/templater.*
+//@ func ReplaceVars
+//@   trusted
+//@   modifies github.com/go-task/task/v3/internal/templater.*
+//@ func (*Cache).Err
+//@   trusted
+//@   pure
